@@ -427,8 +427,8 @@ class SCTPParser(HeaderParser):
             gap_ack_block_start: Buffer = remainer[0:16]
             gap_ack_block_end: Buffer = remainer[16:32]
             fields.extend([
-                FieldDescriptor(id=SCTPFields.CHUNK_SACK_GAP_ACK_BLOCK_START, value=gap_ack_block_start),
-                FieldDescriptor(id=SCTPFields.CHUNK_SACK_GAP_ACK_BLOCK_END, value=gap_ack_block_end)
+                FieldDescriptor(id=SCTPFields.CHUNK_SACK_GAP_ACK_BLOCK_START, value=gap_ack_block_start, position=0),
+                FieldDescriptor(id=SCTPFields.CHUNK_SACK_GAP_ACK_BLOCK_END, value=gap_ack_block_end, position=0)
             ])
             remainer = remainer[32:]
         
@@ -437,7 +437,7 @@ class SCTPParser(HeaderParser):
         for _ in range(number_duplicate_tsns_value):
             duplicate_tsn: Buffer = remainer[0:32]
             fields.extend([
-                FieldDescriptor(id=SCTPFields.CHUNK_SACK_DUPLICATE_TSN, value=duplicate_tsn),
+                FieldDescriptor(id=SCTPFields.CHUNK_SACK_DUPLICATE_TSN, value=duplicate_tsn, position=0),
             ])
             remainer = remainer[32:]
         
